@@ -1,6 +1,7 @@
 from clikit.api.args import Args
 from clikit.api.args import RawArgs
 from clikit.api.args.exceptions import CannotParseArgsException
+from clikit.api.args.exceptions import NoSuchOptionException
 from clikit.api.command import Command
 
 
@@ -47,7 +48,7 @@ class ResolveResult(object):
     def _parse(self):  # type: () -> None
         try:
             self._parsed_args = self._command.parse(self._raw_args)
-        except CannotParseArgsException as e:
+        except (CannotParseArgsException, NoSuchOptionException) as e:
             self._parse_error = e
 
         self._parsed = True
